@@ -47,18 +47,6 @@ def name_values(bd):
     return out
 
 
-def names_defect(helper, cur, value, bd):
-    """the decidable pattern of finding D1801 (None for anything else)"""
-    naming = value is not None and sum(x is None for x in value) != bd      # eager would name a dimension or reject
-    if helper == "TensorDict.__init__" and naming:
-        return "compile-drops-names"
-    if helper == "TensorDict._new_unsafe" and value is not None and list(value) != [None] * bd:
-        return "compile-drops-names"                                         # eager stores the names unchecked
-    if helper == "TensorDict.names" and cur is not None and not naming:
-        return "compile-drops-names"                                         # erasing skipped by the compile arm
-    return None
-
-
 def check_names(R, torch, tensordict):
     TD = tensordict.TensorDict
     cases, lines = [], []
@@ -116,8 +104,7 @@ def check_names(R, torch, tensordict):
         oe = obs[False][1][1] if obs[False][0] == "ok" else obs[False]
         if oc != oe:
             R.oracle_fail("helpers:native-vs-python", {"helper": helper, "batch_dims": bd, "state_or_cls": repr(x), "names": repr(value)},
-                          {"eager": repr(oe), "compile_branch": repr(oc)},
-                          {"helper": helper, "defect": names_defect(helper, x if cmd == "names-set" else None, value, bd)})
+                          {"eager": repr(oe), "compile_branch": repr(oc)}, {"helper": helper})
     R.traces += 2 * len(cases)
 
 
@@ -352,29 +339,36 @@ def check_parse_to(R, torch, U):
         for kw in [{}, {"dtype": torch.float32}, {"device": "cpu"}, {"non_blocking": True}, {"device": "meta", "dtype": torch.int64},
                    {"batch_size": torch.Size([2])}, {"memory_format": torch.channels_last}]:
             spellings.append((args, kw))
+    # since repair D1802 the compile arm is a transcription of the native parser: a wider grid over the documented argument kinds
+    # (device as str / torch.device / None, dtype, tensor, bool), arities 0..5, every keyword, ill-typed and duplicate arguments.
+    # Python scalars / Python types in the place of a tensor / dtype (accepted natively, refused by the transcription) are not
+    # generated: recorded as the residual of D1802 in findings.d/C18.json
+    pos_vals = ["cpu", torch.device("meta"), None, torch.float32, t, "cpu:0", torch.channels_last, "bogus", [1]]
+    kw_vals = {"device": ["cpu", None, torch.float32, t, "meta"], "dtype": [torch.int64, None, "cpu", t], "non_blocking": [True, False, None, 1],
+               "copy": [True, False], "memory_format": [torch.channels_last, None, torch.preserve_format], "tensor": [t, None, torch.float32],
+               "convert_to_format": [None], "foo": [1], "batch_size": [torch.Size([2])], "inplace": [True]}
+    arglists = [(a,) for a in pos_vals] + list(itertools.product(pos_vals, repeat=2)) \
+        + [(a, b, c) for a in ["cpu", None, torch.float32, t] for b in [torch.float32, None, "cpu", t, True] for c in [True, False, None]] \
+        + [("cpu", torch.float32, True, False), ("cpu", torch.float32, True, True), (torch.float32, True, False), (t, False, False),
+           (t, False, False, False), ("cpu", None, False, False, 1), (torch.float32, True), (t, True)]
+    kwlists = [{}] + [{k: v} for k in kw_vals for v in kw_vals[k]]
+    keys = sorted(kw_vals)
+    for k1, k2 in itertools.combinations(keys, 2):
+        kwlists += [{k1: v1, k2: v2} for v1 in kw_vals[k1][:2] for v2 in kw_vals[k2][:2]]
+    wide = [(a, kw) for a in [()] + arglists for kw in kwlists]
+    spellings += wide if not R.quick else [wide[i] for i in sorted(R.rng.sample(range(len(wide)), 1500))]
     for args, kw in spellings:
         obs = {}
         for c in (False, True):
             with Forced(c):
                 r = call(U._parse_to, *args, **dict(kw))
             obs[c] = [repr(x) for x in r[1]] if r[0] == "ok" else r
-        label = repr([type(a).__name__ for a in args]) + repr(sorted(kw))
+        label = repr(args) + repr(sorted(kw.items(), key=repr))
         R.case(("parse_to", label), nontrivial=True)
         R.count("parse_to:" + ("positional" if args else "keywords-only"))
         if obs[False] != obs[True]:
-            # finding D1802: the compile arm reads args[0] as a device and takes non_blocking from the keywords only
-            pat = None
-            if "memory_format" in kw and (not args or isinstance(args[0], (str, torch.device))) and len(args) <= 2:
-                pat = "memory_format-ignored"
-            elif args and not isinstance(args[0], (str, torch.device)):
-                pat = "positional-dtype-or-tensor"
-            elif len(args) > 2:
-                pat = "positional-non_blocking"
-            elif (args and "device" in kw) or (len(args) > 1 and "dtype" in kw):
-                pat = "duplicate-positional-and-keyword"
             R.oracle_fail("helpers:native-vs-python", {"helper": "_parse_to", "args": repr(args), "kwargs": repr(kw)},
-                          {"eager": repr(obs[False]), "compile_branch": repr(obs[True])},
-                          {"helper": "_parse_to", "defect": pat})
+                          {"eager": repr(obs[False]), "compile_branch": repr(obs[True])}, {"helper": "_parse_to"})
     R.traces += len(spellings)
 
 
@@ -427,8 +421,9 @@ def replay(case):
 
 # ------------------------------------------------------------------ consolidate: the clone decision of the two arms
 def check_consolidate(R, torch, tensordict):
-    """consolidate() on strided / offset / size-1 / empty leaves, both branches (no model: DualUnmodelled).
-    compile arm: clone iff not v.is_contiguous();  eager arm: clone iff stride[-1] != 1 or storage_offset()."""
+    """consolidate() on strided / offset / size-1 / empty leaves, with the flag forced both ways.  Since repair D1803 the function
+    does not ask is_compiling() (one clone condition: not is_contiguous() or stride[-1] != 1): the two runs must agree
+    (outcomes that raise are counted: `consolidate:raises`, expected 0)."""
     TD = tensordict.TensorDict
     views = {
         "[::2]": lambda t: t[::2], "[1:]": lambda t: t[1:], "[0:1:2]": lambda t: t[0:1:2], "[3:1]": lambda t: t[3:1],
@@ -456,13 +451,10 @@ def check_consolidate(R, torch, tensordict):
                 n_cases += 1
                 R.case(("consolidate", n, leaves, vname), nontrivial=True)
                 R.count("consolidate:" + ("contiguous" if all(l[3] for l in lay) else "non-contiguous"))
+                if obs[False][0] != "ok" or obs[True][0] != "ok":
+                    R.count("consolidate:raises")
                 if obs[False] != obs[True]:
-                    pat = None
-                    if obs[True][0] == "raise" and obs[False][0] == "ok" and any(l[3] and l[1] and l[1][-1] != 1 for l in lay):
-                        pat = "consolidate-contiguous-with-last-stride-not-1"
-                    elif obs[False][0] == "raise" and obs[True][0] == "ok" and any((not l[3]) and l[1] and l[1][-1] == 1 and l[2] == 0 for l in lay):
-                        pat = "consolidate-noncontiguous-with-last-stride-1"
                     R.oracle_fail("helpers:native-vs-python", {"helper": "consolidate", "batch": n, "leaves": list(leaves), "view": vname},
                                   {"layouts(shape,stride,offset,is_contiguous)": repr(lay), "eager": repr(obs[False]), "compile_branch": repr(obs[True])},
-                                  {"helper": "consolidate", "defect": pat})
+                                  {"helper": "consolidate"})
     R.traces += n_cases
